@@ -261,6 +261,9 @@ func (x *g) genUserTypes() {
 	if (x.o.Profile == "validation" || x.o.Profile == "mixed") && x.o.Profile != "grpc" && x.chance(1, 2) {
 		x.genAliasChain()
 	}
+	if x.o.Profile == "validation" && x.chance(2, 3) {
+		x.genEdgeBoundsType()
+	}
 	nres := 0
 	switch x.o.Profile {
 	case "views":
@@ -639,6 +642,9 @@ func (x *g) genVal(kind string, t *spec.Type) *spec.Val {
 			x.s.AddFeature("val-range")
 		case 3:
 			lo := float64(x.r.Range(0, 5))
+			if unsigned && x.chance(2, 3) {
+				lo = 0 // the bound that coincides with the smallest value of the type
+			}
 			if x.chance(2, 3) {
 				v.ExclMin = fp(lo)
 			}
@@ -1061,4 +1067,27 @@ func (x *g) genDerivedType() {
 		x.s.AddFeature("reference")
 	}
 	d.Def = def
+}
+
+// genEdgeBoundsType adds a user type whose numeric bounds coincide with the limits of their Go types and whose length
+// bounds are the smallest possible: the places where "this check can never fail" shortcuts go wrong.
+func (x *g) genEdgeBoundsType() {
+	all := []*spec.Attr{
+		{Name: "count_pos", Type: &spec.Type{Kind: spec.UInt}, Val: &spec.Val{ExclMin: fp(0)}},
+		{Name: "count32_pos", Type: &spec.Type{Kind: spec.UInt32}, Val: &spec.Val{ExclMin: fp(0), Max: fp(4294967295)}},
+		{Name: "big_pos", Type: &spec.Type{Kind: spec.UInt64}, Val: &spec.Val{ExclMin: fp(0)}},
+		{Name: "low32", Type: &spec.Type{Kind: spec.Int32}, Val: &spec.Val{Min: fp(-2147483648), ExclMax: fp(0)}},
+		{Name: "neg", Type: &spec.Type{Kind: spec.Int}, Val: &spec.Val{ExclMax: fp(0)}},
+		{Name: "unit", Type: &spec.Type{Kind: spec.Float32}, Val: &spec.Val{Min: fp(0), ExclMax: fp(1)}},
+		{Name: "one_rune", Type: &spec.Type{Kind: spec.String}, Val: &spec.Val{MinLen: ip(1), MaxLen: ip(1)}},
+		{Name: "one_elem", Type: &spec.Type{Kind: spec.Array, Elem: &spec.Attr{Type: &spec.Type{Kind: spec.UInt32}, Val: &spec.Val{ExclMin: fp(0)}}}, Val: &spec.Val{MaxLen: ip(1)}},
+	}
+	ut := &spec.UserType{Name: x.typeName("Edges"), Kind: "type", Def: &spec.Type{Kind: spec.Object}}
+	perm := x.r.Perm(len(all))
+	for _, i := range perm[:x.r.Range(3, 5)] {
+		ut.Def.Attrs = append(ut.Def.Attrs, all[i])
+	}
+	x.s.Types = append(x.s.Types, ut)
+	x.solo = append(x.solo, ut.Name, ut.Name)
+	x.s.AddFeature("edge-bounds")
 }
